@@ -418,3 +418,38 @@ pub fn family_case(i: usize) -> Vec<u8> {
     }
     v
 }
+
+/// End-of-data tail family: a run that one of the packed modes likes (length a multiple of its group size
+/// or one/two off), followed by every tail of length 0..=3 over ten class representatives. Deterministic.
+pub const TAIL_ALPHA: [u8; 10] = [b'1', b'5', b'A', b'm', b' ', b'*', b'.', b'~', 0x80, 0xE9];
+pub const TAIL_BODIES: [&[u8]; 4] = [b"ABCDEFGHIJKLMNOPQRSTUVWXYZ0123456789ABCDEF", b"abcdefghijklmnopqrstuvwxyz0123456789abcdef", b"AB*CD>EF\rGH*IJ>KL\rMN*OP>QR\rST*UV>WX\rYZ*01>23", b"OR.DE/R:NO;AB-C1(X)Y+Z,=?@[!#$%&'\\]^<.A.C./:"];
+pub fn tail_count() -> usize {
+    1 + 10 + 100 + 1000
+}
+pub fn tail_family_count() -> usize {
+    TAIL_BODIES.len() * 43 * tail_count()
+}
+pub fn tail_family_case(i: usize) -> Vec<u8> {
+    let mut x = i;
+    let mut t = x % tail_count();
+    x /= tail_count();
+    let len = x % 43;
+    x /= 43;
+    let body = TAIL_BODIES[x % TAIL_BODIES.len()];
+    let mut v: Vec<u8> = body.iter().copied().cycle().take(len).collect();
+    // decode t into a tail of length 0..=3
+    let mut tl = 0;
+    let mut block = 1;
+    while t >= block {
+        t -= block;
+        block *= 10;
+        tl += 1;
+    }
+    let mut tail = vec![0u8; tl];
+    for k in (0..tl).rev() {
+        tail[k] = TAIL_ALPHA[t % 10];
+        t /= 10;
+    }
+    v.extend(tail);
+    v
+}
